@@ -686,7 +686,7 @@ func main() {
 		ids := func(idx int) func() string {
 			n := 0
 			// every few ids carry characters that jsoniter's string encoder escapes in the answer frames
-			special := []string{"", "", "", `"q"`, "<&>", "é\u2028", "a\\b", "tab\there", "\x01\x7f"}
+			special := []string{"", "", "", " sp ", `"q"`, "<&>", "é\u2028", "a\\b", "tab\there", "\x01\x7f"}
 			return func() string { n++; return fmt.Sprintf("c%d-%d%s", idx, n, special[(idx+n)%len(special)]) }
 		}
 		cfgs := allConfigs()
